@@ -37,6 +37,7 @@ def run_history(ops, want_corr=True):
     Row = O.models()['Row']
     inst = None
     last_post = None
+    shared_b = BatchQuery()          # one batch object re-used by every 'batch_reuse' of the history
     ck = CK
     used_ck = set([CK])
     rekeyed = False
@@ -72,7 +73,15 @@ def run_history(ops, want_corr=True):
             if cur is None:
                 continue
             a, how, x = o[1], o[2], o[3]
-            if how == 'inner':
+            if how == 'edit':
+                if a != 'l' or len(cur) < 3:
+                    continue
+                cur[1 + (x % (len(cur) - 2))] = x + 40      # an interior element replaced ...
+                if x % 2:
+                    cur.insert(0, x + 50)                   # ... and growth at the head
+                if x != 1:
+                    cur.append(x + 60)                      # ... and / or at the tail, all before one save
+            elif how == 'inner':
                 if a != 'ml' or not cur:
                     continue
                 key_ = x if x in cur else sorted(cur)[0]
@@ -114,7 +123,7 @@ def run_history(ops, want_corr=True):
             exp = dict((sa, exp.get(sa)) for sa in STATIC)             # the row under the new key does not exist yet (static column is per partition)
             for a in O.ATTR_COL:
                 touched[a].append('rekey')
-        elif k in ('save', 'batch_save'):
+        elif k in ('save', 'batch_save', 'batch_reuse', 'batch_with_execute'):
             rec = k
         elif k == 'update':
             for a, v in o[1].items():
@@ -173,6 +182,15 @@ def run_history(ops, want_corr=True):
                 inst.save()
             elif rec == 'update':
                 inst.update()
+            elif rec == 'batch_reuse':
+                inst.batch(shared_b).save()      # the same BatchQuery object, executed explicitly every time
+                shared_b.execute()
+                inst._batch = None
+            elif rec == 'batch_with_execute':
+                with BatchQuery() as b:          # the warned-about pattern: execute() inside the with-block, then __exit__ executes again
+                    inst.batch(b).save()
+                    b.execute()
+                inst._batch = None
             else:
                 b = BatchQuery()
                 inst.batch(b).save()
@@ -338,7 +356,7 @@ def run(ctx):
                     # the value manager still remembers, as previous_value, a value the row no longer stores (column deleted earlier)
                     a, cause = 'column', 'stale-previous-after-delete'
             who = {'qs_update': 'ModelQuerySet.update', 'create': 'Model.save(new)', 'save': 'Model.save', 'update': 'Model.update',
-                   'batch_save': 'Model.save(batch)', 'delete': 'Model.delete'}[s['kind']]
+                   'batch_save': 'Model.save(batch)', 'batch_reuse': 'Model.save(batch re-used)', 'batch_with_execute': 'Model.save(batch executed in with-block)', 'delete': 'Model.delete'}[s['kind']]
             key = '%s.%s.%s' % (who, a, cause)
             if key in seen:
                 continue
